@@ -1,1 +1,9 @@
 import Cutadapt.Properties.C01
+#print axioms Cutadapt.C01.flags_match_documentation
+#print axioms Cutadapt.C01.tables_match_documentation
+#print axioms Cutadapt.C01.tables_match_documentation_comparer
+#print axioms Cutadapt.C01.alignment_sound
+#print axioms Cutadapt.C01.matchTo_sound
+#print axioms Cutadapt.C01.noindel_is_hamming
+#print axioms Cutadapt.C01.exAdapter_wf
+#print axioms Cutadapt.C01.noindel_needs_rate_le_one
